@@ -312,8 +312,13 @@ def main(tier):
         for mk in masks:
             cases.append({"kind": "parse1", "zone": z, "mask": mk})
     for z in zones:
-        for k in range(0, 5 if tier == "quick" else 9):
+        for k in range(0, 5):
             cases.append({"kind": "parseK", "zone": z, "k": k})
+    if tier == "thorough":
+        # more records only for two zones: the cost grows with 2^k paths and k^2 lemma instances
+        for z in ("Asia/Jerusalem", "UTC"):
+            for k in (5, 6):
+                cases.append({"kind": "parseK", "zone": z, "k": k})
     for z in zones:
         for f in range(8):
             cases.append({"kind": "roundtrip", "zone": z, "fixed": [(f >> 2) & 1, (f >> 1) & 1, f & 1]})
@@ -325,7 +330,7 @@ def main(tier):
              rule="(1) one record with every byte free except a concrete day mask, everything inlined; (2) k records with the day "
                   "decoder, duration and next-run functions replaced by argument-recording summaries (they are decided by C12/C14/C13); "
                   "(3) create_schedule's emitted record listed back by a device under an arbitrary slot id",
-             bounds={"records": "0..%d" % (4 if tier == "quick" else 8), "zones": zones, "zone table": "transitions 2024-%d" % (2026 if tier == "quick" else 2037), "masks (inlined)": len(masks),
+             bounds={"records": "0..4" if tier == "quick" else "0..4 in every zone, 5 and 6 in two zones", "zones": zones, "zone table": "transitions 2024-%d" % (2026 if tier == "quick" else 2037), "masks (inlined)": len(masks),
                      "instants": "inside the zone row's window", "outside": "replies whose record area is not a multiple of 16 bytes"},
              assumptions=["zone contract (DESIGN 3.5)", "summaries in run (2) rely on C12, C13, C14 holding",
                           "mixed-radix uniqueness lemma (LIA)"],
